@@ -37,6 +37,8 @@ pub fn scenario<C: Coll>(c: &mut Ctx, _idx: u64, rng: &mut Rng, name: &str) {
     let space = C::id_space();
     let n = if large { 60_000 } else { (*rng.pick(&[1usize, 3, 7, 8, 14, 28, 100, 1000])).min(space as usize / 2).max(1) };
     let pattern = if large { "fifo" } else { PATTERNS[rng.usize_below(PATTERNS.len())] };
+    // a batch step moves b keys; under plans where every probe walks past every element that is b x n comparisons
+    let n = if pattern == "batch" && plan.is_clustering() { n.min(60) } else { n };
     let steps: usize = if large {
         if c.thorough() { 6_000_000 } else { 1_500_000 }
     } else if c.is_miri() {
@@ -46,6 +48,7 @@ pub fn scenario<C: Coll>(c: &mut Ctx, _idx: u64, rng: &mut Rng, name: &str) {
     } else {
         *rng.pick(&[4_000usize, 20_000])
     };
+    let steps = if pattern == "batch" && !large { if plan.is_clustering() { steps / 8 } else { steps / 2 } } else { steps };
     // the bound: 8x for small tables (minimum table sizes dominate), 4x (the bound derived from the growth policy) for large ones
     let factor = if n >= 1000 && pattern != "batch" { 4 } else { FACTOR };
     if large {
@@ -99,11 +102,6 @@ pub fn scenario<C: Coll>(c: &mut Ctx, _idx: u64, rng: &mut Rng, name: &str) {
             // batch churn: remove the b oldest keys, then insert b fresh ones through ONE Extend call (which reserves for the
             // batch while the table still has some growth budget left: neither "full" nor "empty")
             let b = (n / 4).max(1).min(64);
-            // one batch moves b keys: spread the batches so that `steps` stays the number of element operations
-            if step % b != 0 {
-                c.evaluations -= 1;
-                continue;
-            }
             while live.len() + b > n {
                 let id = live.pop_front().unwrap();
                 if !col.del(id) {
